@@ -28,7 +28,15 @@ PARTIAL = ('proved (Properties/C08.v, all closed under the global context): C08_
            'sound breakdown test, eigh_tridiagonal with U^T U = I, T U = U diag(w), (U U^T) e_0 = e_0, unimodular numpy.exp at the issued arguments), right-isometry of '
            'orthonormalize and Hermiticity of the MPO (word-level, as in C04_heff_hermitian); self-adjointness of every one-site and zero-site effective operator and '
            'non-vanishing of every start tensor are derived from the sweep invariant; per call: C08_kexp_from_krylov, C08_kexp0_from_krylov (these also cover the merged '
-           'two-site calls). The two-site whole-run instantiation (C08_tdvp2_conserves_lapack) is NOT done: statement kept as a comment in Properties/C08.v. '
+           'two-site calls). LINK, TWO-SITE (C08_tdvp2_conserves_lapack, Proofs/Link2*.v): the two-site whole-run theorem (tol_split = 0) with the solver argument '
+           'instantiated by the same kexp_lanczos for both kinds of local problem the integrator issues -- the merged two-site step (physical dimension d*d, merged MPO '
+           'tensor, flattened length d*d*Dl*Dr) and the backward one-site step: the only remaining hypotheses are LAPACK-level contracts on the calls actually issued '
+           '(numpy.linalg.norm, sound breakdown test, eigh_tridiagonal incl. the row-0 clause, unimodular numpy.exp at the issued arguments), the exact-split contract on '
+           'every SPLITL / SPLITR entry, right-isometry of orthonormalize and Hermiticity of the MPO; self-adjointness of every merged effective operator is derived from '
+           'the two-site invariant Z2 (C08_heff2_hermitian from C04_two_site_is_projection + mpo_herm; C08_two_site_invariant_gives_local_problem), non-vanishing of every '
+           'merged start tensor from norm one; per entry: C08_kh2_entry_from_krylov; lock-step induction over the two-site schedule (C08_tdvp2_lapack_to_conserving); '
+           'non-vacuity: the L = 3 rational instance run with the REAL solver (numiter = 1, unimodular phase 3/5+4/5i, exact rational split oracle), all hypotheses checked by '
+           'kernel evaluation and the theorem applied to it (C08_tdvp2_conserves_lapack_nonvacuous, C08_tdvp2_conserves_lapack_example). '
            'NOT proved: bond dimensions along a whole run, splits with tol > 0, that the FLOATING-POINT primitives (LAPACK QR / eigh_tridiagonal / norm / exp, hence the floating-point Lanczos) meet their exact contracts (drift measured), that the floating-point '
            'SVD split meets the exact-split contract (at tol = 0 this is what C03_merge_split_id and C12_block_svd_spec prove of the split model in exact arithmetic; '
            'here only its consequences, norm and energy drift, are measured), rounding drift (measured by prop()); '
